@@ -240,7 +240,7 @@ Variable p : pkg A.
 Lemma gen_inputs_total fi : exists ins, gen_inputs p fi = Some ins.
 Proof.
   unfold gen_inputs. destruct fi; [eexists; reflexivity|].
-  destruct (closure_total (dep_graph p) (p_arg_inputs p)) as [l E]. rewrite E. eexists; reflexivity.
+  destruct (closure_total (dep_graph p) (roots p)) as [l E]. rewrite E. eexists; reflexivity.
 Qed.
 
 Lemma generate_total fi fe : exists ins ens, generate p fi fe = Some (ins, ens).
@@ -249,9 +249,9 @@ Proof. unfold generate. destruct (gen_inputs_total fi) as [ins E]. rewrite E. ee
 (* retained inputs = exactly the input classes reachable from the variables' input types *)
 Lemma inputs_closed_lemma : exists ins, gen_inputs p false = Some ins /\
   forall d, In d ins <->
-    In d (input_defs p) /\ exists r, In r (p_arg_inputs p) /\ reachable (dep_graph p) r (fst d).
+    In d (input_defs p) /\ exists r, In r (roots p) /\ reachable (dep_graph p) r (fst d).
 Proof.
-  unfold gen_inputs. destruct (closure_total (dep_graph p) (p_arg_inputs p)) as [l E]. rewrite E.
+  unfold gen_inputs. destruct (closure_total (dep_graph p) (roots p)) as [l E]. rewrite E.
   eexists; split; [reflexivity|]. intro d. rewrite filter_defs_In.
   rewrite (closure_spec _ _ l E). reflexivity.
 Qed.
@@ -261,7 +261,7 @@ Lemma enums_closed_lemma ins : forall d, In d (gen_enums p false ins) <->
   In d (p_enums p) /\
   (In (fst d) (p_res_enums p) \/
    (exists i, In i ins /\ In (fst d) (enums_of (p_inputs p) (fst i))) \/
-   In (fst d) (p_frag_enums p) \/ In (fst d) (p_arg_enums p)).
+   In (fst d) (p_frag_enums p) \/ In (fst d) (builder_enums p) \/ In (fst d) (p_arg_enums p)).
 Proof.
   intro d. unfold gen_enums. rewrite filter_defs_In. unfold used_enums, input_used_enums.
   rewrite !in_app_iff. rewrite in_flat_map. reflexivity.
@@ -273,7 +273,7 @@ Proof.
   unfold generate, gen_inputs, gen_enums. intro H.
   destruct fi.
   - inversion H; subst. split; [apply sublist_refl|]. destruct fe; [apply sublist_refl | apply filter_sublist].
-  - destruct (closure_opt (dep_graph p) (p_arg_inputs p)); [|discriminate]. inversion H; subst.
+  - destruct (closure_opt (dep_graph p) (roots p)); [|discriminate]. inversion H; subst.
     split; [apply filter_sublist|]. destruct fe; [apply sublist_refl | apply filter_sublist].
 Qed.
 
@@ -330,7 +330,7 @@ Qed.
 
 Lemma needed_retained_lemma ins ens : generate p false false = Some (ins, ens) ->
   (* every input type named by a variable *)
-  (forall v, In v (p_arg_inputs p) -> forall d, In d (p_inputs p) -> i_name d = v -> In (i_name d, i_body d) ins) /\
+  (forall v, In v (roots p) -> forall d, In d (p_inputs p) -> i_name d = v -> In (i_name d, i_body d) ins) /\
   (* every input type a retained input class refers to *)
   (forall d, In d (p_inputs p) -> In (i_name d, i_body d) ins ->
      forall d', In d' (p_inputs p) -> In (i_name d') (i_deps d) -> In (i_name d', i_body d') ins) /\
@@ -338,7 +338,8 @@ Lemma needed_retained_lemma ins ens : generate p false false = Some (ins, ens) -
   (forall d, In d (p_inputs p) -> In (i_name d, i_body d) ins ->
      forall e, In e (p_enums p) -> In (fst e) (i_enums d) -> In e ens) /\
   (forall e, In e (p_enums p) ->
-     In (fst e) (p_res_enums p) \/ In (fst e) (p_frag_enums p) \/ In (fst e) (p_arg_enums p) -> In e ens).
+     In (fst e) (p_res_enums p) \/ In (fst e) (p_frag_enums p) \/ In (fst e) (builder_enums p) \/
+     In (fst e) (p_arg_enums p) -> In e ens).
 Proof.
   intro H. unfold generate in H. destruct inputs_closed_lemma as [ins' [E Hin]]. rewrite E in H.
   inversion H; subst. clear H.
